@@ -398,6 +398,28 @@ pub fn exec(r: &mut Rng, n: usize, thorough: bool, out: &mut Out) {
     for _ in 0..(if thorough { 40 } else { 10 }) {
         fixed.push(sig_case(r));
     }
+    // index / address operands around and beyond the u16 range, for every indexed instruction
+    let big: Vec<ethnum::U256> = vec![65535u32.into(), 65536u32.into(), ethnum::U256::from_words(1, 0), ethnum::U256::from_words(1, 1),
+        ethnum::U256::from_words(1, 65535), ethnum::U256::ONE << 255, ethnum::U256::MAX];
+    for b in &big {
+        let idx = PushI(*b);
+        fixed.push((vec![PushIC(9u8.into()), idx.clone(), Store, PushIC(1u8.into()), Load], HashMap::new()));
+        fixed.push((vec![PushIC(9u8.into()), PushIC(1u8.into()), Store, idx.clone(), Load], HashMap::new()));
+        fixed.push((vec![idx.clone(), VEmpty, PushIC(4u8.into()), VCons, VRef], HashMap::new()));
+        fixed.push((vec![PushIC(5u8.into()), idx.clone(), VEmpty, PushIC(4u8.into()), VCons, VSet], HashMap::new()));
+        fixed.push((vec![idx.clone(), PushB(vec![1, 2, 3]), BRef], HashMap::new()));
+        fixed.push((vec![PushIC(5u8.into()), idx.clone(), PushB(vec![1, 2, 3]), BSet], HashMap::new()));
+        fixed.push((vec![PushIC(2u8.into()), idx.clone(), PushB(vec![1, 2, 3]), BSlice], HashMap::new()));
+        fixed.push((vec![idx.clone(), PushIC(0u8.into()), PushB(vec![1, 2, 3]), BSlice], HashMap::new()));
+        fixed.push((vec![idx.clone(), PushIC(0u8.into()), VEmpty, PushIC(4u8.into()), VCons, VSlice], HashMap::new()));
+    }
+    // jumps into the bodies of loops whose header is skipped
+    for it in [0u16, 1, 3] {
+        for inner in [2u16, 9, 300] {
+            fixed.push((vec![PushIC(0u8.into()), Jmp(1), Loop(it, 4), Loop(inner, 2), PushIC(1u8.into()), Add, Noop], HashMap::new()));
+            fixed.push((vec![PushIC(0u8.into()), Dup, Bez(1), Loop(it, 3), Loop(inner, 2), PushIC(1u8.into()), Add], HashMap::new()));
+        }
+    }
     for (ops, heap) in fixed {
         if let Some(l) = run_line(&ops, &heap) {
             out.emit2(l);
